@@ -36,6 +36,12 @@ INVALID = [
 ]
 # scalar values of another scalar type: the `config` crate coerces these instead of rejecting them
 # (known finding; kept in the exploration with their own signature). Written as raw TOML.
+# integer-looking values for options that are not integers, and a negative zero: only the -C route can express them
+# without colliding with the coercion finding of the file route
+INVALID_C_ONLY = [
+    ("use_tabs", "2"), ("use_tabs", "-1"), ("format_multiline_strings", "10"), ("format_multiline_strings", "-7"),
+    ("encoding", "0866"), ("encoding", "+866"), ("tab_width", "-0"), ("begin_style", "0"), ("line_ending", "1"),
+]
 COERCED = [
     ("format_multiline_strings", "2"), ("use_tabs", "1"), ("use_tabs", '"yes"'), ("use_tabs", "0.0"),
     ("wrap_column", "30.5"), ("tab_width", "true"),
@@ -177,8 +183,8 @@ def explore(tier, seed):
         # strictness: invalid settings in each source, files mode: the target must stay untouched
         inv = PyFamily("c19:invalid-settings-x-sources")
         k = 0
-        for (key, val, coerced) in [(a, b, False) for a, b in INVALID] + [(a, b, True) for a, b in COERCED]:
-            for source in (("file", "config-file") if coerced else ("file", "config-file", "C")):
+        for (key, val, coerced) in [(a, b, False) for a, b in INVALID] + [(a, b, True) for a, b in COERCED] + [(a, b, None) for a, b in INVALID_C_ONLY]:
+            for source in (("C",) if coerced is None else ("file", "config-file") if coerced else ("file", "config-file", "C")):
                 for mode in ("files", "stdin"):
                     if source == "C" and val.startswith("["):
                         continue
@@ -214,6 +220,30 @@ def explore(tier, seed):
                         inv.fail("C19", "file-touched-despite-configuration-error", f"{key}={val} via {source}", case)
                     elif out:
                         inv.fail("C19", "output-despite-configuration-error", f"{key}={val} via {source}: stdout {out[:60]!r}", case)
+        # a working directory reached through a symbolic link, with the shell's logical $PWD exported: discovery walks the
+        # real ancestors of the working directory
+        for depth_below in (0, 1, 2):
+            k += 1
+            base = os.path.join(root, f"s{k}")
+            real = os.path.join(base, "real", *[f"d{i}" for i in range(depth_below)])
+            os.makedirs(real)
+            os.makedirs(os.path.join(base, "other"))
+            open(os.path.join(base, "real", "pasfmt.toml"), "w").write("wrap_column = 30\nuse_tabs = true\n")
+            open(os.path.join(base, "other", "pasfmt.toml"), "w").write("wrap_column = 60\nline_ending = \"crlf\"\n")
+            link = os.path.join(base, "other", "link")
+            os.symlink(real, link)
+            eff = dict(DEFAULTS, wrap_column=30, use_tabs=True)
+            want = reference(eff, cache)
+            for pwd in (link, None):
+                env = {"PWD": pwd} if pwd else None
+                rc, out, err = cli.run([], stdin=PROBE.encode(), cwd=link, env=env)
+                inv.case(nontrivial=True)
+                inv.transitions += 1
+                case = {"oracle": "c19", "symlinked_cwd": True, "depth_below_config": depth_below, "PWD_exported": bool(pwd), "no_confirm": True}
+                if rc != 0:
+                    inv.fail("C19", "valid-configuration-rejected", f"exit {rc}: {err[:200]!r}", case)
+                elif out != want:
+                    inv.fail("C19", "effective-configuration-differs", f"working directory reached through a symbolic link (PWD exported: {bool(pwd)}): the pasfmt.toml above the real directory is not the one in effect", case)
         # a configuration file that cannot be read as text (not UTF-8) is an error in both file sources, never "no file"
         for source in ("file", "config-file"):
             for raw in (b"# caf\xe9\nwrap_column = 30\n", b"wrap_column = 30\n# \xff\xfe\n", b"\xff\xfew\x00r\x00a\x00p\x00"):
